@@ -441,6 +441,19 @@ def gen_queries(rng, world, n):
              'lat': float(rng.uniform(la_lo, la_hi)), 'lon': float(rng.uniform(lo_lo, lo_hi)),
              'alt': alt_for_levels(rng, spec['ps']), 'tas': float(rng.choice([0.0, 60.0, 150.0, 200.0, 251.5, float(rng.uniform(1, 300))])),
              'hdg': float(rng.uniform(0, 360)), 'via': 'point' if rng.random() < 0.5 else 'arg', 'other_az': float(rng.uniform(0, 360))}
+        if qs and rng.random() < 0.18:
+            # the same point and altitude as an earlier query of this Weather object, same day, another hour
+            # (and sometimes another day): the answer must depend on the time asked for, not on what was asked before
+            prev = qs[int(rng.integers(0, len(qs)))]
+            if all(isinstance(prev[k], float) and not math.isnan(prev[k]) for k in ('lat', 'lon', 'alt')):
+                q.update(lat=prev['lat'], lon=prev['lon'], alt=prev['alt'],
+                         date=prev['date'] if rng.random() < 0.8 else q['date'])
+                if q['date'] == prev['date']:
+                    q['hour'] = int((prev['hour'] + int(rng.integers(1, 24))) % 24)
+                q['tas'] = float(rng.choice([0.0, prev['tas']]))
+                q['tag'] = 'probe' if q['tas'] == 0.0 else 'revisit'
+                qs.append(q)
+                continue
         r = rng.random()
         if r < 0.10:
             q['hdg'] = float(rng.choice([0.0, 90.0, 180.0, 270.0, 360.0, 45.0, -90.0, 450.0]))
